@@ -299,3 +299,56 @@ def run(pid, tier, seed):
                                "each wrapped once more in every constructor (sampled in quick), nested chains, variable-free trees (folding, failed folding), "
                                "seeded random trees depth 3-4, unnormalised symbolic derivatives (both routes), give-up runs with budget 3/5/8 (thorough: 150-700-node inputs with the real budget); "
                                "one case = one complete recorded derivation; non-trivial = at least 2 steps"}, exhaustive=False)
+
+
+def kf1_attribution(trees, tier="quick"):
+    """For violations seen by OTHER engines on outputs of the simplifier: single-step the real rewriter on each of the given
+    (unnormalised) inputs and let TLC identify the rules.  Returns one bool per input: True iff the recorded derivation
+    contains at least one unsound step that TLC identifies as rule T2 with even n and even m (KF-1) and NO other unsound step."""
+    if not trees:
+        return []
+    rnd = random.Random(99)
+    rows = []
+    for i, t in enumerate(trees, 1):
+        d = derive(t)
+        d["i"] = i
+        d["pts"] = points_for(t, "thorough", rnd)
+        rows.append(d)
+    work = tlcrun.scratch_dir("kf1")
+    try:
+        trace = os.path.join(work, "trace.ndjson")
+        write_ndjson(trace, rows)
+        res = tlcrun.run("ReduceCases", "ReduceCases.cfg", trace_file=trace, timeout=900, expect_violation=True)
+    finally:
+        shutil.rmtree(work, ignore_errors=True)
+    verd = {l["i"]: l["v"] for l in res["lines"] if isinstance(l, dict) and "i" in l}
+    out = []
+    for row in rows:
+        v = verd.get(row["i"])
+        if v is None:
+            out.append(False)
+            continue
+        kf_any, other = False, False
+        for j, st in enumerate(v["steps"]):
+            st = list(st)
+            bad = "V:C08.step_unsound" in st
+            if not bad and not ("KF1" in st) and v["fl"][j]:
+                bad_fl = False
+                for jj in v["fl"][j]:
+                    ra = SV.value(row["forms"][j], row["pts"][jj - 1])
+                    if ra[0] != "ok":
+                        continue
+                    rb = SV.value(row["forms"][j + 1], row["pts"][jj - 1])
+                    if rb[0] == "undef" or (rb[0] == "ok" and SV.close(float(rb[1]), ra[1], max(ra[2], rb[2]), rel=1e-9) is False):
+                        bad_fl = True
+                if bad_fl:
+                    if "kf1step" in st and "drift" not in st:
+                        kf_any = True
+                    else:
+                        other = True
+            if "KF1" in st:
+                kf_any = True
+            elif bad:
+                other = True
+        out.append(kf_any and not other)
+    return out
